@@ -1,6 +1,7 @@
 package common_listener
 
 import (
+	"github.com/antlr/antlr4/runtime/Go/antlr/v4"
 	"github.com/modernizing/coca/languages/java"
 	"github.com/modernizing/coca/pkg/domain/core_domain"
 	"reflect"
@@ -39,6 +40,16 @@ func BuildAnnotationForMethod(context *parser.ModifierContext, method *core_doma
 
 			annotation := BuildAnnotation(annotationCtx)
 			method.Annotations = append(method.Annotations, annotation)
+		}
+	}
+}
+
+// BuildAnnotationsForMethod adds the annotations found among all the modifiers of a member declaration
+// (@Test @Ignore void f(), public @Nullable String g()), not only the first one.
+func BuildAnnotationsForMethod(declaration antlr.Tree, method *core_domain.CodeFunction) {
+	for _, child := range declaration.GetChildren() {
+		if modifier, ok := child.(*parser.ModifierContext); ok {
+			BuildAnnotationForMethod(modifier, method)
 		}
 	}
 }
